@@ -2,34 +2,43 @@
 (* Trace validation for C17, hostile SEQUENCES against the consensus reactor
    (harness/inpkg/consensus/zz_verif_c17seq_test.go) against TMPeerGossip.
 
-     Reset {unit, name, src, msgs}                 a new connection; the sequence about to be fed
+     Reset {unit, ns, nodeh, initial, name, src, msgs}   a new connection; the node class (TMPeerGossip!NodeClasses) and
+                                                   the node's height; the sequence about to be fed
      Msg   {i, m, sent, barrier, stopped, panic_caught}   message i was sent; what the node did with the peer
-     End   {supported, honest, probe, consensus_failure, retained, cap, stopped}
-                                                   after the goroutines ran on what the sequence left behind
+     End   {supported, honest, probe, progress, consensus_failure, retained, cap, stopped}
+                                                   after the goroutines ran on what the sequence left behind AND the node
+                                                   carried on: NewHeight timeout, one failed round, one committed height
+                                                   (progress = "ok" or where it got stuck)
      Crash {where}                                 the PROCESS died while this sequence was being fed
                                                    (a panic outside every production recover)
    Level 2 (viol): hostile input only drops the peer -- no process crash, no stuck receive routine, no
-   halted consensus, honest peer unaffected, bounded retention.
+   halted consensus ("never wedges the node": it still fails a round and commits a height afterwards), honest
+   peer unaffected, bounded retention.
    Level 1 (drift): the peer is stopped exactly at the first message TMPeerGossip!Receive refuses.   *)
 EXTENDS TMPeerGossip, TraceKit
 
 Trace == LoadTrace("trace.ndjson")
 
-VARIABLES l, name, prs, down, viol, drift
-vars == <<l, name, prs, down, viol, drift>>
+VARIABLES l, name, nd, prs, down, viol, drift
+vars == <<l, name, nd, prs, down, viol, drift>>
 
-Init == l = 1 /\ name = "none" /\ prs = NewPRS /\ down = FALSE /\ viol = {} /\ drift = {}
+Init == l = 1 /\ name = "none" /\ nd = LaterClass /\ prs = NewPRS /\ down = FALSE /\ viol = {} /\ drift = {}
 
 V(cls) == [l |-> l, inv |-> "HostileOnlyDrops", class |-> cls, case |-> name]
 D(what) == [l |-> l, what |-> what]
 RetainedSlack == 1048576
 
-StepReset(e) == name' = e.name /\ prs' = NewPRS /\ down' = FALSE /\ UNCHANGED <<viol, drift>>
+ClassOf(ns) == CHOOSE c \in NodeClasses : ClassName(c) = ns
+StepReset(e) ==
+  /\ name' = e.ns \o ":" \o e.name
+  /\ nd' = [ClassOf(e.ns) EXCEPT !.abs = IF e.nodeh > 0 THEN e.nodeh ELSE @]
+  /\ prs' = NewPRS /\ down' = FALSE /\ UNCHANGED <<viol, drift>>
 
 StepMsg(e) ==
-  LET x == Receive(prs, e.m)
-      g == GossipAll(x.p)
+  LET x == Receive(nd, prs, e.m)
+      g == GossipAll(x.nd, x.p)
   IN /\ prs' = IF down \/ x.stop THEN prs ELSE g.p
+     /\ nd' = IF down \/ x.stop THEN nd ELSE x.nd
      /\ down' = (down \/ e.stopped)
      /\ drift' = drift
           \cup FailIf(~down /\ e.sent /\ x.stop # e.stopped,
@@ -42,13 +51,14 @@ StepMsg(e) ==
 StepEnd(e) ==
   /\ viol' = viol
        \cup FailIf(e.supported /\ e.honest # "echo", V("honest_peer_affected"))
-       \cup FailIf(e.supported /\ e.probe # "ok", V("wedge_node"))
+       \cup FailIf(e.supported /\ e.probe # "ok" /\ e.consensus_failure = 0, V("wedge_node"))
        \cup FailIf(e.supported /\ e.consensus_failure # 0, V("consensus_halted"))
+       \cup FailIf(e.supported /\ e.consensus_failure = 0 /\ e.progress # "ok", V("no_progress_afterwards"))
        \cup FailIf(e.supported /\ e.retained > 2 * e.cap + RetainedSlack, V("retains_more_than_capacity"))
   /\ drift' = drift \cup FailIf(~e.supported, D("sequence not executed: " \o e.note))
-  /\ UNCHANGED <<name, prs, down>>
+  /\ UNCHANGED <<name, nd, prs, down>>
 
-StepCrash(e) == viol' = viol \cup {V("process_crash")} /\ UNCHANGED <<name, prs, down, drift>>
+StepCrash(e) == viol' = viol \cup {V("process_crash")} /\ UNCHANGED <<name, nd, prs, down, drift>>
 
 Step ==
   /\ l <= Len(Trace)
@@ -63,7 +73,7 @@ Finish ==
   /\ l = Len(Trace) + 1
   /\ WriteVerdict("verdict.json", Len(Trace), viol, drift)
   /\ l' = l + 1
-  /\ UNCHANGED <<name, prs, down, viol, drift>>
+  /\ UNCHANGED <<name, nd, prs, down, viol, drift>>
 
 Next == Step \/ Finish
 =============================================================================
